@@ -1,15 +1,25 @@
-"""C13 - start position / reset policy (group-less part; group part in group engine)."""
-from props import consumer_engine as E
+"""C13 - consumption starts at the committed offset, else per auto_offset_reset.
+
+Two engines: group-less consumers (no committed offset: reset policy, seeks,
+out-of-range) and group members (committed offset absent / inside / beyond)."""
+from props import consumer_engine as CE
+from props import group_engine as GE
 
 PROP = "C13"
 LEVEL = "exploration"
 RUNS = {"quick": 2500, "thorough": 100000}
-SHRINK_LISTS = ("faults", "tasks", "ops", "appends", "descs")
+SHRINK_LISTS = ("faults", "tasks", "ops", "appends", "descs", "env", "members", "logs")
+SHRINK_MIN = {"members": 1}
+RUN_TIMEOUT = 300
 
 
 def gen_plan(seed, index, tier="quick"):
-    return E.gen_plan(PROP, seed, index, tier)
+    if index % 4 == 3:
+        return GE.gen_plan(PROP, seed, index, tier)
+    return CE.gen_plan(PROP, seed, index, tier)
 
 
 def execute(plan):
-    return E.execute(plan)
+    if plan["engine"] == "group":
+        return GE.execute(plan)
+    return CE.execute(plan)
